@@ -107,6 +107,7 @@ StorageChecks(cfg, c, x, blocks) ==
                                         /\ AllocEq(cfg, BlockRec(blocks, x.st)[3], x.al)),
     Chk("C02", "contiguous-views",      TRUE, x.ok),
     Chk("C02", "inlinable",             TRUE, x.inlb <=> (x.sz <= n)),
+    Chk("C16", "non-member begin/end/size/ssize/empty/data agree with the members", TRUE, x.nm),
     Chk("C12", "size<=max_size",        TRUE, x.sz <= Max(x.max, n)) }
 
 LedgerChecks(cfg, post) ==
@@ -419,7 +420,8 @@ BinaryChecks(cfg, pre, post, ln) ==
            Chk("C07", "move-assign:source-allocator-kept", ok /\ ~self, AllocEq(cfg, ys.al, xs.al)),
            Chk("C09", "move-assign:steals-when-permitted", ok /\ ~self /\ must /\ ~cfg.vector, Stolen(cfg, pre, post, ln, d, s)),
            Chk("C04", "move-assign:steal=>no-allocate", ok /\ ~self /\ must, Len(Allocs(ln.evs)) = 0),
-           Chk("C04", "move-assign:fits=>no-allocate", ok /\ ~self /\ interch /\ szs <= xd.cap /\ ~cfg.vector,
+           \* (an assignment that must replace an unequal allocator is a listed exception of C04)
+           Chk("C04", "move-assign:fits=>no-allocate", ok /\ ~self /\ (cfg.isStd \/ eq) /\ szs <= xd.cap /\ ~cfg.vector,
                Len(Allocs(ln.evs)) = 0) }
     [] op = "swap" ->
          LET interch == cfg.isStd \/ cfg.pocs \/ eq IN
@@ -430,6 +432,7 @@ BinaryChecks(cfg, pre, post, ln) ==
            Chk("C07", "swap:allocators-exchanged-iff-POCS", ok /\ ~self,
                IF cfg.pocs /\ ~cfg.isStd THEN AllocEq(cfg, yd.al, xs.al) /\ AllocEq(cfg, ys.al, xd.al)
                                           ELSE AllocEq(cfg, yd.al, xd.al) /\ AllocEq(cfg, ys.al, xs.al)),
+           Chk("C16", "non-member swap == member swap", ok /\ ~self /\ ln.a[1] = 1, yd.e = xs.e /\ ys.e = xd.e),
            Chk("C09", "swap:heap-buffer-of-source-handed-over", ok /\ ~self /\ interch /\ Heap(xs) /\ ~cfg.vector,
                StN(yd) = StN(xs) /\ yd.cap = xs.cap /\ (cfg.tracked => RegionUntouched(ln.evs, RegionOf(s, xs)))),
            Chk("C09", "swap:heap-buffer-of-destination-handed-over", ok /\ ~self /\ interch /\ Heap(xd) /\ ~cfg.vector,
@@ -462,8 +465,14 @@ IsCtorFrom(op) == op \in {"ctor_copy", "ctor_move"}
 IsBinary(op)   == op \in {"assign_copy", "assign_copy_f", "assign_move", "assign_move_f", "swap",
                           "append_copy", "append_move", "cmp"}
 
+\* C13 (a): for a trivially copyable element type (memcpy / memmove / fill shortcuts) every C01 result
+\* check must come out exactly as it does for the non-trivial twin, on the same stimuli.
+TwinChecks(cfg, checks) ==
+  IF cfg.tracked THEN {}
+  ELSE { <<"C13", "fast-path:" \o t[2], t[3]>> : t \in {u \in checks : u[1] \in {"C01", "C11"}} }
+
 \* All L1 checks of one logged call.  pre / post: [A, B, blocks].
-OpChecks(cfg, pre, post, ln) ==
+OpChecksBase(cfg, pre, post, ln) ==
   OutcomeChecks(cfg, ln) \cup
   (IF Fatal(ln) THEN {}
    ELSE (IF IsCtor(ln.op) THEN CtorChecks(cfg, pre, post, ln)
@@ -473,5 +482,8 @@ OpChecks(cfg, pre, post, ln) ==
         \cup InvChecks(cfg, post, ln.can)
         \cup { Chk("C06", "after-a-throw:storage-invariants,nothing-leaked", ln.out = "injected",
                    \A t \in InvChecks(cfg, post, ln.can) : t[3] # 0) })
+
+OpChecks(cfg, pre, post, ln) ==
+  LET cs == OpChecksBase(cfg, pre, post, ln) IN cs \cup TwinChecks(cfg, cs)
 
 =============================================================================
